@@ -9,6 +9,8 @@ func init() {
 			controlWriterRules(c, "C08")
 			handlerRules(c, "C08")
 			unusedResultRules(c, "C08")
+			// HandleClose relies on CheckCloseFrameData for the validity of the code
+			c03CloseData(c)
 		},
 	})
 }
